@@ -581,7 +581,7 @@ pub fn c04(big: bool) -> BoxedStrategy<Case> {
 
 pub fn c05(big: bool) -> BoxedStrategy<Case> {
     let max_ops = if big { 16 } else { 10 };
-    let base = OpWeights { stop: 0, drop: 16, give: 5, convert: 30, send: 18, call: 14, ping: 3, yield_: 5, sleep: 5, max_sleep: 6, ..MSG_WEIGHTS };
+    let base = OpWeights { stop: 0, drop: 16, give: 5, convert: 30, send: 18, call: 14, ping: 3, yield_: 5, sleep: 5, max_sleep: 6, call_drop: 4, ..MSG_WEIGHTS };
     let started = prop_oneof![
         2 => Just(vec![]),
         3 => vec(prop_oneof![4 => light_timer().prop_map(Step::AddTimer), 1 => (0u8..2).prop_map(Step::Subscribe)], 1..=3),
@@ -958,6 +958,10 @@ pub fn c11(big: bool) -> BoxedStrategy<Case> {
             });
             let op = prop_oneof![
                 5 => (h(), work.clone()).prop_map(|(h, work)| ClientOp::Call { h, work }),
+                // a caller that gives up (select!, client-side timeout) changes nothing for the invocation
+                2 => (h(), work.clone(), 0u8..4).prop_map(|(h, work, polls)| ClientOp::CallDrop { h, work, polls }),
+                // handles go away while messages are queued: the limit holds for the rest of the queue too
+                1 => h().prop_map(|h| ClientOp::Drop { h }),
                 4 => (h(), work).prop_map(|(h, work)| ClientOp::Send { h, work }),
                 1 => h().prop_map(|h| ClientOp::Ping { h }),
                 1 => Just(ClientOp::Yield),
